@@ -1,6 +1,6 @@
 """C08 - failures are AmpycloudError only; guard discipline in front of third-party numerics.
 Totality / termination of pandas, scikit-learn, statsmodels is NOT claimed (not statically decidable)."""
-from sa.rules import exceptions, baseheight, indexing
+from sa.rules import exceptions, baseheight, indexing, scaling
 
 LEVEL = 'other'
 
@@ -21,5 +21,11 @@ def check(ctx):
     indexing.name_keyed_operations(ctx, 'C08-R5')
     exceptions.locals_bound_before_use(ctx, 'C08-R6')
     exceptions.patterns_are_literals(ctx, 'C08-R7')
+    # R8: non-detections stay non-detections through the scalings: find_slices picks the rows to cluster on the scaled
+    # copy and writes the labels through the unscaled one (a length mismatch is a pandas ValueError)
+    scaling.nan_safe(ctx, 'C08-R8')
+    # R9: the selection handed to the base routine is never empty - all members, or the members without the excluded
+    # ceilometers only when more than MAX_HITS_OKTA0 (>= 0) of them remain (an empty one is refused: valid data refused)
+    baseheight.selection(ctx, 'C08-R9')
     ctx.undecided += ['termination and totality of the third-party numerics for every accepted input',
                       'whether an assert can fire is a run-time question (asserts are listed as information)']
